@@ -22,6 +22,8 @@ type FuncBinding struct {
 }
 
 type Env struct {
+	KeepGen  bool // keep each function's generator in its result (replay)
+	Concrete bool // generate concrete-mode conditions (replay: no execution, unconstrained post state)
 	Bindings map[string]*FuncBinding
 	Repo    string
 	Module  string
@@ -534,4 +536,31 @@ func leanExpr(e Expr) (string, error) {
 		return "(" + a + " " + op + " " + b + ")", nil
 	}
 	return "", fmt.Errorf("expression %s not supported in lean lemmas", e)
+}
+
+type ContractTarget struct {
+	Rel, Key string
+	Props    []string
+}
+
+// ContractTargets lists the functions under (non-trusted) contract.
+func (env *Env) ContractTargets() []ContractTarget {
+	var pkgs []string
+	for p := range env.Specs {
+		pkgs = append(pkgs, p)
+	}
+	sort.Strings(pkgs)
+	var out []ContractTarget
+	for _, p := range pkgs {
+		sf := env.Specs[p]
+		for _, key := range sf.Order {
+			c := sf.Contracts[key]
+			if c.Extern || c.Trusted || strings.Contains(key, " #") {
+				continue
+			}
+			rel := strings.TrimPrefix(strings.TrimPrefix(p, env.Module), "/")
+			out = append(out, ContractTarget{Rel: rel, Key: key, Props: c.Props})
+		}
+	}
+	return out
 }
